@@ -31,6 +31,7 @@ ConfigOK(o, e) ==
   /\ ConfigAllowed(o, ObsCfg(e))
   /\ CarriedIntact(e)
   /\ e.wrappers_same                      \* TLSTransport / TLSClient give the same configuration or error
+  /\ e.reuse_same                         \* ... also once wrapped by KeepAliveTransport / EnableConnectionReuse (ThroughReuse)
 
 HandshakeObsOK(o, e) ==
   LET c == Config(o)                      \* the configuration the property determines for these options
@@ -68,6 +69,7 @@ MWhy(s, e) ==
          ELSE IF ~ConfigAllowed(o, ObsCfg(e)) THEN WhyNot(o, ObsCfg(e))
          ELSE IF ~CarriedIntact(e) THEN "carried-value-not-the-supplied-one"
          ELSE IF ~e.wrappers_same THEN "tls-transport-or-client-wrapper-differs"
+         ELSE IF ~e.reuse_same THEN "configuration-changed-by-connection-reuse-wrapper"
          ELSE "error-without-stage"
     [] e.ev = "handshake" ->
          LET c == Config(o) sv == Servers[e.server] IN
